@@ -294,13 +294,15 @@ const (
 	kRemove
 	kProbeFH
 	kTooManyOps
+	kBlobCheck
+	kCurSid
 )
 
 var kindName = map[opKind]string{
 	kSetClientID: "SETCLIENTID", kSetClientIDConfirm: "SETCLIENTID_CONFIRM", kExchangeID: "EXCHANGE_ID", kCreateSession: "CREATE_SESSION",
 	kDestroySession: "DESTROY_SESSION", kDestroyClientID: "DESTROY_CLIENTID", kOpen: "OPEN", kOpenConfirm: "OPEN_CONFIRM",
 	kOpenDowngrade: "OPEN_DOWNGRADE", kClose: "CLOSE", kLockNew: "LOCK(new)", kLockExist: "LOCK", kLockU: "LOCKU", kLockT: "LOCKT",
-	kReleaseLockOwner: "RELEASE_LOCKOWNER", kFreeStateID: "FREE_STATEID", kIO: "IO", kRenew: "RENEW", kRemove: "REMOVE", kProbeFH: "PUTFH", kTooManyOps: "(too many operations)",
+	kReleaseLockOwner: "RELEASE_LOCKOWNER", kFreeStateID: "FREE_STATEID", kIO: "IO", kRenew: "RENEW", kRemove: "REMOVE", kProbeFH: "PUTFH", kTooManyOps: "(too many operations)", kBlobCheck: "LOOKUP/PUTFH+READ", kCurSid: "OPEN+(current stateid)",
 }
 
 type request struct {
@@ -336,6 +338,10 @@ type request struct {
 	sid    nfsv4.Stateid4 // state ID presented by I/O
 	ioNeed uint32
 	ioOp   string
+
+	curOp      string // kCurSid: operation that uses the current stateid ("READ", "CLOSE")
+	curVariant int    // kCurSid: what happens between OPEN and that operation (see reqCurSid)
+	blob       *countingLeaf
 
 	probe       string // "", "misordered", "false-retry": requests that must be rejected
 	valid       bool   // built from current state: must not be refused for state reasons
@@ -531,7 +537,7 @@ func (w *world) onStart(d *delivery) {
 		d.ioStart = w.ioExpectation(req)
 	}
 	if req.kind == kProbeFH {
-		if leaf, ok := leafOfFH(req.fh); ok {
+		if leaf, ok := w.leafOfFH(req.fh); ok {
 			d.holderStart = w.definiteStableHolder(leaf)
 		}
 	}
@@ -630,7 +636,7 @@ func (w *world) replayedOpenArtifact(req *request, d *delivery) bool {
 		return false
 	}
 	fh := d.res.Resarray[2].(*nfsv4.NfsResop4_OP_GETFH).Opgetfh.(*nfsv4.Getfh4res_NFS4_OK).Resok4.Object
-	_, isLeaf := leafOfFH(fh)
+	_, isLeaf := w.leafOfFH(fh)
 	return !isLeaf
 }
 
@@ -867,7 +873,7 @@ func (w *world) checkLeaves(final bool) {
 	for i, l := range snap {
 		for b := 0; b < 2; b++ {
 			if l.closes[b] > l.opens[b] {
-				w.violate("closed-more-than-opened", fmt.Sprintf("file#%d (handle %x) was closed for %s %d times but opened only %d times", i, fhOfLeaf(i), bitName[b], l.closes[b], l.opens[b]))
+				w.violate("closed-more-than-opened", fmt.Sprintf("file#%d (handle %x) was closed for %s %d times but opened only %d times", i, w.fhOfLeaf(i), bitName[b], l.closes[b], l.opens[b]))
 				return
 			}
 		}
@@ -918,7 +924,7 @@ func (w *world) checkLeaves(final bool) {
 		for b := 0; b < 2; b++ {
 			cnt := l.opens[b] - l.closes[b]
 			if need[i][b] != "" && cnt < 1 {
-				w.violate("closed-while-entitled", fmt.Sprintf("file#%d (handle %x) is fully closed for %s (opened %d, closed %d) although %s still entitles its client to that access and the client's lease cannot have expired", i, fhOfLeaf(i), bitName[b], l.opens[b], l.closes[b], need[i][b]))
+				w.violate("closed-while-entitled", fmt.Sprintf("file#%d (handle %x) is fully closed for %s (opened %d, closed %d) although %s still entitles its client to that access and the client's lease cannot have expired", i, w.fhOfLeaf(i), bitName[b], l.opens[b], l.closes[b], need[i][b]))
 				return
 			}
 		}
@@ -950,10 +956,10 @@ func (w *world) checkLeaves(final bool) {
 					short = "effect-not-once"
 				}
 				if cnt > hi[i][b] && len(w.expiredNotes) > 0 {
-					w.violate("not-closed-after-expiry", fmt.Sprintf("no request is in flight; file#%d (handle %x) is open for %s %d times (opened %d, closed %d) although the state of clients whose lease cannot have expired amounts to at most %d opens; leases that certainly expired and had to be reclaimed: %v; holders: %v", i, fhOfLeaf(i), bitName[b], cnt, l.opens[b], l.closes[b], hi[i][b], w.expiredNotes, w.describeHolders()))
+					w.violate("not-closed-after-expiry", fmt.Sprintf("no request is in flight; file#%d (handle %x) is open for %s %d times (opened %d, closed %d) although the state of clients whose lease cannot have expired amounts to at most %d opens; leases that certainly expired and had to be reclaimed: %v; holders: %v", i, w.fhOfLeaf(i), bitName[b], cnt, l.opens[b], l.closes[b], hi[i][b], w.expiredNotes, w.describeHolders()))
 					return
 				}
-				w.violate(short, fmt.Sprintf("no request is in flight; file#%d (handle %x) is open for %s %d times (opened %d, closed %d) but the state the server handed out and has not released amounts to between %d and %d opens; holders: %v", i, fhOfLeaf(i), bitName[b], cnt, l.opens[b], l.closes[b], lo[i][b], hi[i][b], w.describeHolders()))
+				w.violate(short, fmt.Sprintf("no request is in flight; file#%d (handle %x) is open for %s %d times (opened %d, closed %d) but the state the server handed out and has not released amounts to between %d and %d opens; holders: %v", i, w.fhOfLeaf(i), bitName[b], cnt, l.opens[b], l.closes[b], lo[i][b], hi[i][b], w.describeHolders()))
 				return
 			}
 		}
@@ -1129,7 +1135,8 @@ func (w *world) applyIO(req *request, d *delivery) {
 		}
 	case ok && end.must:
 		w.k.Probe("io-with-valid-stateid-ok")
-		if leaf, okl := leafOfFH(req.fh); okl && leaf < len(w.alloc.leaves) && w.alloc.snapshot()[leaf].unlinked {
+		w.checkReadData(req, d, req.base+1, req.fh)
+		if leaf, okl := w.leafOfFH(req.fh); okl && leaf < len(w.alloc.leaves) && w.alloc.snapshot()[leaf].unlinked {
 			w.k.Probe("io-on-unlinked-open-file-ok")
 		}
 	case !ok && !end.mayOK:
@@ -1138,3 +1145,38 @@ func (w *world) applyIO(req *request, d *delivery) {
 }
 
 var _ = time.Second
+
+// checkReadData: a successful READ (result i of the reply) of a file whose
+// contents never change must return that file's contents.
+func (w *world) checkReadData(req *request, d *delivery, i int, fh []byte) {
+	if i >= len(d.res.Resarray) {
+		return
+	}
+	r, ok := d.res.Resarray[i].(*nfsv4.NfsResop4_OP_READ)
+	if !ok {
+		return
+	}
+	okr, ok := r.Opread.(*nfsv4.Read4res_NFS4_OK)
+	if !ok {
+		return
+	}
+	leaf, ok := w.leafOfFH(fh)
+	if !ok {
+		return
+	}
+	w.alloc.mu.Lock()
+	l := w.alloc.leaves[leaf]
+	w.alloc.mu.Unlock()
+	if l.blob == nil {
+		return
+	}
+	want := l.blob.content
+	if len(want) > 64 {
+		want = want[:64]
+	}
+	if !bytes.Equal(okr.Resok4.Data, want) {
+		w.violate("read-wrong-file", fmt.Sprintf("%s request#%d [%s]: READ through handle %x, which designates file#%d (%s), returned %q instead of that file's contents %q", req.cl.name, req.id, req.desc, fh, leaf, l.blob.name, okr.Resok4.Data, want))
+		return
+	}
+	w.k.Probe("blob-read-returned-the-right-file")
+}
